@@ -444,6 +444,7 @@ type c09fix struct {
 	verified  map[string]bool          // memo of independent verifications
 	clDomains map[string]eth2p0.Domain // healthy answers of the fault-scriptable client (zz_verif_c09_seq_test.go)
 	bvals     []c09val                 // validators of the batch dimension (zz_verif_c09_batch_test.go)
+	sched     *c09sched                // the mock's fork schedule (zz_verif_c09_fork_test.go)
 	strict    bool
 }
 
@@ -536,6 +537,10 @@ type c09tfix struct {
 	xdom      signing.DomainName       // "all-cross-duty": domain and epoch of the partner duty type whose message root is identical
 	xepoch    func(v int) eth2p0.Epoch //
 	listRoots map[string][][32]byte
+
+	// only used by the fork-boundary dimension (zz_verif_c09_fork_test.go)
+	baseSig string                                              // signing-root variant of an uncorrupted partial ("" = orig)
+	xroot   func(v int, variant string) ([32]byte, bool, error) // harness-side signing roots (variants own, fork<idx>)
 }
 
 func (f *c09fix) newTypeFix(ty c09type) (*c09tfix, error) {
@@ -591,6 +596,14 @@ func (tf *c09tfix) signingRoot(v int, variant string) ([32]byte, error) {
 		return r, nil
 	}
 	f := tf.f
+	if tf.xroot != nil { // signing roots composed by the harness alone (no DomainName/Epoch of the code under test)
+		if r, ok, err := tf.xroot(v, variant); ok || err != nil {
+			if err == nil {
+				tf.sr[key] = r
+			}
+			return r, err
+		}
+	}
 	obj, root := tf.obj[v], tf.root[v]
 	if variant == "alt" {
 		obj, root = tf.alt[v], tf.altRoot[v]
@@ -769,8 +782,12 @@ func (tf *c09tfix) list(v int, shares []int, corrs []c09corr) ([]core.ParSignedD
 		objVar, sigVar, mangle   string
 	}
 	sp := make([]spec, len(shares))
+	base := "orig"
+	if tf.baseSig != "" {
+		base = tf.baseSig
+	}
 	for i, s := range shares {
-		sp[i] = spec{objOf: v, keyOf: v, share: s, idx: s, objVar: "orig", sigVar: "orig"}
+		sp[i] = spec{objOf: v, keyOf: v, share: s, idx: s, objVar: "orig", sigVar: base}
 	}
 	drop := -1
 	for _, k := range corrs {
@@ -822,6 +839,12 @@ func (tf *c09tfix) list(v int, shares []int, corrs []c09corr) ([]core.ParSignedD
 		case "all-zero-domain": // sequence/fault dimensions: every share signed under the all-zero domain
 			for i := range sp {
 				sp[i].sigVar = "zdom"
+			}
+		case "prev-fork-domain", "next-fork-domain", "other-fork-domain": // fork dimension: one share signed under the domain of fork version Arg of the schedule
+			sp[k.Pos].sigVar = fmt.Sprintf("fork%d", k.Arg)
+		case "all-prev-fork-domain", "all-next-fork-domain", "all-other-fork-domain": // fork dimension: every share
+			for i := range sp {
+				sp[i].sigVar = fmt.Sprintf("fork%d", k.Arg)
 			}
 		case "all-cross-duty": // sequence dimension: the signatures of the partner duty type (identical message root, other domain)
 			for i := range sp {
@@ -1222,6 +1245,9 @@ func TestVerifC09(t *testing.T) {
 		if err := r.ReplayCase(&m); err == nil && m.Mode == "batch" {
 			c09replayBatch(r, f, types)
 			return
+		} else if err == nil && m.Mode == "fork" {
+			c09replayFork(r, f, types)
+			return
 		} else if err == nil && m.Mode != "" {
 			c09replayX(r, f, types)
 			return
@@ -1294,4 +1320,7 @@ func TestVerifC09(t *testing.T) {
 
 	// number of validators per call (zz_verif_c09_batch_test.go)
 	c09runBatch(r, f, types, thorough)
+
+	// slot / epoch boundaries of the mock's fork schedule (zz_verif_c09_fork_test.go)
+	c09runFork(r, f, types, thorough)
 }
